@@ -344,6 +344,16 @@ func duplicateFullTrigger(
 	// A contracted function has exactly one declared parameter, and the argument bound to it is
 	// the last one: a call through a method expression, e.g., `(*S).m(recv, arg)`, passes the
 	// receiver first.
+	if len(callExpr.Args) == 0 {
+		// A variadic function with a hand-written contract called without arguments: there is no argument
+		// whose non-nilness could establish the contract, so the triggers that end at the result are
+		// duplicated onto the call-site result without a controller, i.e., they are always active.
+		dupTrigger := annotation.FullTrigger{Producer: trigger.Producer, Consumer: trigger.Consumer}
+		if isReturnConsumer {
+			dupTrigger.Consumer = annotation.DuplicateReturnConsumer(trigger.Consumer, pass.PosToLocation(callExpr.Pos()))
+		}
+		return dupTrigger
+	}
 	argExpr := callExpr.Args[len(callExpr.Args)-1]
 	argLoc := pass.PosToLocation(argExpr.Pos())
 
